@@ -638,7 +638,7 @@ theorem Good.namesOk {tm : TM} (g : Good cfg tm) (hwt : cfg.wellTyped = true) : 
     intro p hp
     rw [dump_typeMap] at hp
     obtain ⟨i, hi, rfl⟩ := List.mem_map.mp hp
-    have hn := g.inv.1 i hi
+    have hn := ctorErr_none_name cfg (g.inv.1 i hi)
     obtain ⟨hv, hname⟩ := nameOf_eq_of_ne cfg hn
     simp only [dump_get, Bool.and_eq_true, beq_iff_eq]
     refine ⟨⟨?_, rfl⟩, wellTyped_named cfg hwt i⟩
@@ -1157,6 +1157,7 @@ structure RootsSpec (tm : TM) (roots : List TRef) (tm' : TM) : Prop where
   closed : ∀ i ∈ tm', ClosedE cfg tm' i
   visited : ∀ t ∈ roots, Visited cfg tm' t
   reach : ∀ e ∈ tm', e ∉ tm → ∃ t ∈ roots, ∃ r, t.strip = .named r ∧ Reach cfg r e
+  topOk : ∀ t ∈ roots, t = .nil ∨ topErr cfg t = none
 
 theorem reduceRoots_spec : ∀ (roots : List TRef) (tm tm' : TM), reduceRoots cfg tm roots = .ok tm' → Inv cfg tm →
     (∀ i ∈ tm, ClosedE cfg tm i) → RootsSpec (cfg := cfg) tm roots tm' := by
@@ -1166,7 +1167,7 @@ theorem reduceRoots_spec : ∀ (roots : List TRef) (tm tm' : TM), reduceRoots cf
     intro tm tm' h hinv hcl
     simp only [reduceRoots, Except.ok.injEq] at h
     subst h
-    exact ⟨⟨[], by simp⟩, hinv, hcl, fun t ht => (by cases ht), fun e he hne => absurd he hne⟩
+    exact ⟨⟨[], by simp⟩, hinv, hcl, fun t ht => (by cases ht), fun e he hne => absurd he hne, fun t ht => (by cases ht)⟩
   | cons t rest ih =>
     intro tm tm' h hinv hcl
     simp only [reduceRoots] at h
@@ -1174,7 +1175,7 @@ theorem reduceRoots_spec : ∀ (roots : List TRef) (tm tm' : TM), reduceRoots cf
     · subst hnil
       simp only [beq_self_eq_true, if_true] at h
       have sp := ih tm tm' h hinv hcl
-      refine ⟨sp.ext, sp.inv, sp.closed, ?_, ?_⟩
+      refine ⟨sp.ext, sp.inv, sp.closed, ?_, ?_, ?_⟩
       · intro t' ht'
         cases ht' with
         | head => exact Or.inl rfl
@@ -1182,6 +1183,10 @@ theorem reduceRoots_spec : ∀ (roots : List TRef) (tm tm' : TM), reduceRoots cf
       · intro e he hne
         obtain ⟨t', ht', r⟩ := sp.reach e he hne
         exact ⟨t', List.mem_cons_of_mem _ ht', r⟩
+      · intro t' ht'
+        cases ht' with
+        | head => exact Or.inl rfl
+        | tail _ h' => exact sp.topOk t' h'
     · have : (t == TRef.nil) = false := by simpa using hnil
       simp only [this, Bool.false_eq_true, if_false] at h
       cases hte : topErr cfg t with
@@ -1203,7 +1208,7 @@ theorem reduceRoots_spec : ∀ (roots : List TRef) (tm tm' : TM), reduceRoots cf
           have sp := ih tm1 tm' h s1.inv hcl1
           obtain ⟨l2, hl2⟩ := sp.ext
           have sub1 : ∀ e ∈ tm1, e ∈ tm' := by intro e he; rw [hl2]; exact List.mem_append_left _ he
-          refine ⟨⟨l1 ++ l2, by rw [hl2, hl1, List.append_assoc]⟩, sp.inv, sp.closed, ?_, ?_⟩
+          refine ⟨⟨l1 ++ l2, by rw [hl2, hl1, List.append_assoc]⟩, sp.inv, sp.closed, ?_, ?_, ?_⟩
           · intro t' ht'
             cases ht' with
             | head => exact s1.visited.mono cfg sub1
@@ -1214,6 +1219,10 @@ theorem reduceRoots_spec : ∀ (roots : List TRef) (tm tm' : TM), reduceRoots cf
               exact ⟨t, List.mem_cons_self .., r, hr', hre⟩
             · obtain ⟨t', ht', r⟩ := sp.reach e he h1m
               exact ⟨t', List.mem_cons_of_mem _ ht', r⟩
+          · intro t' ht'
+            cases ht' with
+            | head => exact Or.inr hte
+            | tail _ h' => exact sp.topOk t' h'
 
 theorem visited_ref {tm : TM} {i : Nat} (h : Visited cfg tm (.ref i)) : i ∈ tm := by
   rcases h with h | h
